@@ -380,7 +380,7 @@ prop(
     technique="model-based property testing on the virtual-time engine (rapidcheck tape + exhaustive action shapes), stop-contract interpreter as oracle, C and C++ entry points",
     rule=("sweep index -> (action shape of the stored policy, child behaviour); tape -> timeouts, deadline, time of destroy, prior wait, handle state, C or C++. Non-trivial: destroy was called on a "
           "running or unreaped child, or in the failed-start / child-side state. Distinct: hash of policy, behaviour, state and times."),
-    essential=dict(quick=["destroy-on-running-child", "destroy-on-exited-unreaped", "destroy-on-reaped", "default-policy", "via-cxx-destructor", "policy-waits-unbounded", "policy-times-out", "destroy-after-failed-wait", "state:failed-start", "state:fork-child-side", "state:not-started", "state:NULL", "with-deadline"]),
+    essential=dict(quick=["destroy-on-running-child", "destroy-on-exited-unreaped", "destroy-on-reaped", "default-policy", "via-cxx-destructor", "policy-waits-unbounded", "policy-times-out", "destroy-after-failed-wait", "restarted-after-failed-start", "state:failed-start", "state:fork-child-side", "state:not-started", "state:NULL", "with-deadline"]),
     assumptions=["in the forked-child state only destroy is legal (reproc.h); nothing more is demanded of it than NULL, no signal, no wait"],
 )
 
